@@ -57,6 +57,10 @@
 // what the statement fixes for any set of files: lookups and the ID-ordered,
 // duplicate-free search results. EachFeature (emits a feature once per file
 // holding it) and the reference/traversal queries are not judged there.
+//
+// Every merged world of both families is also built with queries INTERLEAVED
+// with the merges (interleave.go): a probe set after every Merge but the last,
+// then the same final observation and oracle.
 package main
 
 import (
@@ -202,9 +206,10 @@ type space struct {
 	combos []*combo
 	total  int64
 	// per-process caches (cases of one combo are adjacent)
-	singles  map[string]*singleWorld
-	plain    map[string][]byte
-	ovExpect map[string]*overlapExpect
+	singles    map[string]*singleWorld
+	plain      map[string][]byte
+	ovExpect   map[string]*overlapExpect
+	probeWants map[string]wk.Dump
 }
 
 type singleWorld struct {
@@ -228,7 +233,7 @@ func buildSpace(tier string) (*space, string) {
 	} else {
 		sels = []sel{{quickWorlds, quickSchemes}}
 	}
-	sp := &space{singles: map[string]*singleWorld{}, plain: map[string][]byte{}, ovExpect: map[string]*overlapExpect{}}
+	sp := &space{singles: map[string]*singleWorld{}, plain: map[string][]byte{}, ovExpect: map[string]*overlapExpect{}, probeWants: map[string]wk.Dump{}}
 	var desc []string
 	for _, s := range sels {
 		for _, w := range s.worlds {
@@ -255,13 +260,14 @@ func buildSpace(tier string) (*space, string) {
 		schemes []string
 		k       int
 		group   int
+		probes  int // probeMaxExtra
 	}
 	var osels []osel
 	for _, s := range sels {
-		osels = append(osels, osel{s.worlds, s.schemes, 2, 16})
+		osels = append(osels, osel{s.worlds, s.schemes, 2, 16, -1})
 	}
 	if tier == "thorough" {
-		osels = append(osels, osel{quickWorlds, quickSchemes, 3, 64})
+		osels = append(osels, osel{quickWorlds, quickSchemes, 3, 64, 3})
 	}
 	var odesc []string
 	for _, s := range osels {
@@ -271,15 +277,19 @@ func buildSpace(tier string) (*space, string) {
 				sch := schemeByName(sn)
 				spec := wk.Expand(slots, pick(slots, w.choice), sch)
 				n = len(spec)
-				c := &combo{scheme: sch, world: w, spec: spec, ov: &overlapFamily{k: s.k, dists: distributions(n, s.k), group: s.group}, first: sp.total}
+				c := &combo{scheme: sch, world: w, spec: spec, ov: &overlapFamily{k: s.k, dists: distributions(n, s.k), group: s.group, probeMaxExtra: s.probes}, first: sp.total}
 				nd = len(c.ov.dists)
 				sp.combos = append(sp.combos, c)
 				sp.total += c.ov.cases()
 			}
-			odesc = append(odesc, fmt.Sprintf("%s(%d features over %d files: %d distributions up to renaming files, %d per case) x {%s}", w.name, n, s.k, nd, s.group, strings.Join(s.schemes, ",")))
+			pd := "all"
+			if s.probes >= 0 {
+				pd = fmt.Sprintf("those with <= %d extra copies", s.probes)
+			}
+			odesc = append(odesc, fmt.Sprintf("%s(%d features over %d files: %d distributions up to renaming files, %d per case, probed variant for %s) x {%s}", w.name, n, s.k, nd, s.group, pd, strings.Join(s.schemes, ",")))
 		}
 	}
-	bound := "PARTITIONS: menu worlds " + strings.Join(desc, "; ") + "; every set partition into 2 or 3 files; plain: every merge order; overlay: every feature-keeping build order x every merge order (+ one lossy build order). OVERLAPPING FILES: " + strings.Join(odesc, "; ") + "; every assignment of a non-empty set of the files to each feature with every file used and >= 1 feature in several files, one per renaming of the files; plain builds; every load order; judged: has/feat/loc(point)/byid-has/find only. Universe = worldkit.Universe (9 menu IDs + 5 absent IDs), " + fmt.Sprint(len(queries)) + " tag queries"
+	bound := "PARTITIONS: menu worlds " + strings.Join(desc, "; ") + "; every set partition into 2 or 3 files; plain: every merge order; overlay: every feature-keeping build order x every merge order (+ one lossy build order). OVERLAPPING FILES: " + strings.Join(odesc, "; ") + "; every assignment of a non-empty set of the files to each feature with every file used and >= 1 feature in several files, one per renaming of the files; plain builds; every load order; judged: has/feat/loc(point)/byid-has/find only. PROBED VARIANT: every merged world above is also built file by file with a probe set (has/feat/loc/refs of all 14 universe IDs, all tag searches, EachFeature) run after every Merge but the last, then observed and judged in full like the world loaded in one go; probes judged against the model of the files merged so far (has/feat/loc(point)/find, partition family also each) unless an overlay file is merged before a file it was built against. Universe = worldkit.Universe (9 menu IDs + 5 absent IDs), " + fmt.Sprint(len(queries)) + " tag queries"
 	return sp, bound
 }
 
@@ -482,13 +492,14 @@ func (sp *space) plainData(c *combo, part wk.Spec) ([]byte, error) {
 // ---------------------------------------------------------------- one case
 
 type caseCtx struct {
-	sp    *space
-	c     *combo
-	part  []int
-	files []wk.Spec // by block label
-	label string    // overlap family: the distribution
-	r     *kit.Result
-	seen  map[string]bool // violation classes already reported in this case
+	sp       *space
+	c        *combo
+	part     []int
+	files    []wk.Spec // by block label
+	label    string    // overlap family: the distribution
+	noProbes bool      // overlap family: the probed variant is beyond the bound
+	r        *kit.Result
+	seen     map[string]bool // violation classes already reported in this case
 }
 
 func (sp *space) Run(i int64) kit.Result {
@@ -543,6 +554,7 @@ func (cc *caseCtx) runPlain() {
 	k := len(cc.files)
 	datas := make([][]byte, k)
 	keptSet := map[b6.FeatureID]bool{}
+	keptByFile := make([]wk.Spec, k)
 	for j, f := range cc.files {
 		d, err := cc.sp.plainData(cc.c, f)
 		if err != nil {
@@ -555,6 +567,7 @@ func (cc *caseCtx) runPlain() {
 			cc.r.AddOutcome("skipped:path-inverted")
 			return
 		}
+		keptByFile[j] = kept
 		for _, x := range kept {
 			keptSet[x.ID] = true
 		}
@@ -566,7 +579,14 @@ func (cc *caseCtx) runPlain() {
 			cc.violate("plain:merge-error", "merge order %v: %v", order, err)
 			continue
 		}
-		cc.compare("plain", fmt.Sprintf("plain builds, merge order %v", order), w, datas, union, order)
+		base := cc.compare("plain", fmt.Sprintf("plain builds, merge order %v", order), w, datas, union, order, nil, "")
+		how := fmt.Sprintf("plain builds, merge order %v, probed between merges", order)
+		pw, suffix, err := cc.mergeProbed(how, datas, order, keptByFile, nil, false)
+		if err != nil {
+			cc.violate("plain:merge-error"+suffix, "%s: %v", how, err)
+			continue
+		}
+		cc.compare("plain+probes", how, pw, datas, union, order, base, suffix)
 	}
 }
 
@@ -604,6 +624,7 @@ func (cc *caseCtx) runOverlay() {
 		}
 		datas := make([][]byte, k) // by block label
 		keptSet := map[b6.FeatureID]bool{}
+		keptByFile := make([]wk.Spec, k)
 		var basePoints wk.Spec
 		w := compact.NewWorld()
 		ok := true
@@ -633,6 +654,7 @@ func (cc *caseCtx) runOverlay() {
 				ok = false
 				break
 			}
+			keptByFile[j] = kept
 			for _, x := range kept {
 				keptSet[x.ID] = true
 			}
@@ -664,7 +686,24 @@ func (cc *caseCtx) runOverlay() {
 				}
 				mode = "overlay-reordered"
 			}
-			cc.compare(mode, fmt.Sprintf("overlay builds in order %v, merge order %v", build, order), mw, datas, union, order)
+			base := cc.compare(mode, fmt.Sprintf("overlay builds in order %v, merge order %v", build, order), mw, datas, union, order, nil, "")
+			how := fmt.Sprintf("overlay builds in order %v, merge order %v, probed between merges", build, order)
+			// a partial world is judged when the files merged so far are the
+			// first files of the build order (in any load order)
+			closed := func(merged map[int]bool) bool {
+				for _, j := range build[:len(merged)] {
+					if !merged[j] {
+						return false
+					}
+				}
+				return true
+			}
+			pw, suffix, err := cc.mergeProbed(how, datas, order, keptByFile, closed, false)
+			if err != nil {
+				cc.violate("overlay:merge-error"+suffix, "%s: %v", how, err)
+				continue
+			}
+			cc.compare(mode+"+probes", how, pw, datas, union, order, base, suffix)
 		}
 	}
 }
@@ -778,8 +817,11 @@ func directModel(want wk.Dump, union wk.Spec) {
 }
 
 // compare checks one merged world against the reference and the single-file world.
-func (cc *caseCtx) compare(mode, how string, w *compact.World, datas [][]byte, union wk.Spec, order []int) {
+// baseline (nil for a world loaded in one go) = the sections that differ for
+// the same files loaded in one go; the sections that differ are returned.
+func (cc *caseCtx) compare(mode, how string, w *compact.World, datas [][]byte, union wk.Spec, order []int, baseline map[string]bool, suffix string) map[string]bool {
 	cc.r.Evals++
+	badSet := map[string]bool{}
 	lossy := len(union) != len(cc.c.spec)
 	ids := wk.Universe(cc.c.scheme)
 	got := wk.DumpWorld(w, dumpOptions(cc.c.scheme))
@@ -800,7 +842,7 @@ func (cc *caseCtx) compare(mode, how string, w *compact.World, datas [][]byte, u
 	single := cc.sp.single(cc.c, union)
 	if single.err != nil {
 		cc.violate("single-file:build-error", "single-file build of the union failed: %v\nunion: %s", single.err, union)
-		return
+		return badSet
 	}
 	tables := ""
 	if cc.nsTablesDiffer() {
@@ -847,6 +889,7 @@ func (cc *caseCtx) compare(mode, how string, w *compact.World, datas [][]byte, u
 			cmp = mv
 		}
 		bad++
+		badSet[s] = true
 		sec := wk.SectionClass(s)
 		idStr := strings.TrimPrefix(s, sec+":")
 		if sectionOrder(s) == 0 {
@@ -855,11 +898,15 @@ func (cc *caseCtx) compare(mode, how string, w *compact.World, datas [][]byte, u
 			cc.r.Count("refs-difference-follows-rels/areas-difference", 1)
 			continue
 		}
+		if baseline != nil && baseline[s] {
+			cc.r.Count("probed-world:same-difference-as-loaded-in-one-go", 1)
+			continue
+		}
 		msg := fmt.Sprintf("%s: section %s\n    merged:      %s\n    single-file: %s", how, s, g, sv)
 		if mv, ok := want[s]; ok && modelled(s) {
 			msg += "\n    model:       " + mv
 		}
-		cc.violate(cc.classify(tables, s, g, cmp, order), "%s", msg)
+		cc.violate(cc.classify(tables, s, g, cmp, order)+suffix, "%s", msg)
 	}
 	out := mode
 	if lossy {
@@ -878,6 +925,7 @@ func (cc *caseCtx) compare(mode, how string, w *compact.World, datas [][]byte, u
 		out += ":ok"
 	}
 	cc.r.AddOutcome(out)
+	return badSet
 }
 
 // filesWithBlock counts the files that get a feature block for the type and
@@ -1064,14 +1112,15 @@ func main() {
 	}
 	kit.Main(&kit.Check{
 		ID: "C17", Level: "exploration",
-		Rule: "fixed list of worldkit menu worlds (valid as given) x ID schemes x every set partition of the world's features into 2 or 3 files (restricted growth strings); per partition: plain builds merged in every order, and overlay builds (BuildOverlayInMemory against the world merged so far) in every build order that keeps every feature, each merged in every order (build orders that lose a feature: the order of the block labels only, merged in that order). Non-trivial: every partition (>= 2 non-empty files); distinct by scheme|world|partition. Oracle: merged dump = independent model of the union of what the files hold (worldkit reference for has/feat/loc/find/each and FeaturesByID.HasFeatureWithID; direct-membership model for rels/areas of present features) and = single-file compact build of that union (all sections incl. refs/trav); a section is reported when the merged world differs from both. Lossy partitions are compared on the lookup/search sections only. Second family (overlapping files, after the partitions, fewest files then fewest copies first): every assignment of a non-empty set of the k files (k = 2; thorough also 3) to each feature of the world such that every file is used and >= 1 feature is in several files, one representative per renaming of the files (lexicographically least mask vector), identical feature content in every file holding it, plain builds, every load order; a case = a run of consecutive distributions (Distinct = their number); judged sections: has, feat, loc of points, FeaturesByID.HasFeatureWithID and find:<query> (whole sequence: ID order, no duplicates) against the same model and single-file build of the kept union; EachFeature and the reference/relation/area/traversal queries are not judged on overlapping files (EachFeature differences are counted).",
+		Rule: "fixed list of worldkit menu worlds (valid as given) x ID schemes x every set partition of the world's features into 2 or 3 files (restricted growth strings); per partition: plain builds merged in every order, and overlay builds (BuildOverlayInMemory against the world merged so far) in every build order that keeps every feature, each merged in every order (build orders that lose a feature: the order of the block labels only, merged in that order). Non-trivial: every partition (>= 2 non-empty files); distinct by scheme|world|partition. Oracle: merged dump = independent model of the union of what the files hold (worldkit reference for has/feat/loc/find/each and FeaturesByID.HasFeatureWithID; direct-membership model for rels/areas of present features) and = single-file compact build of that union (all sections incl. refs/trav); a section is reported when the merged world differs from both. Lossy partitions are compared on the lookup/search sections only. Second family (overlapping files, after the partitions, fewest files then fewest copies first): every assignment of a non-empty set of the k files (k = 2; thorough also 3) to each feature of the world such that every file is used and >= 1 feature is in several files, one representative per renaming of the files (lexicographically least mask vector), identical feature content in every file holding it, plain builds, every load order; a case = a run of consecutive distributions (Distinct = their number); judged sections: has, feat, loc of points, FeaturesByID.HasFeatureWithID and find:<query> (whole sequence: ID order, no duplicates) against the same model and single-file build of the kept union; EachFeature and the reference/relation/area/traversal queries are not judged on overlapping files (EachFeature differences are counted). Queries interleaved with merges: every merged world of both families (plain, overlay in build order, overlay loaded in another order, overlapping files; thorough 3-file overlap: the distributions with <= 3 extra copies, a prefix of the order) is built a second time file by file in the same load order and after every Merge but the last a probe set runs on the partial world (HasFeatureWithID, FindFeatureByID incl. geometry, FindLocationByID, FindReferences of every universe ID incl. IDs of files not merged yet and absent IDs; every tag search; EachFeature); after the last Merge the same observation as for the world loaded in one go is judged by the same oracle (a section that already differs for the world loaded in one go is not reported again; one that differs only after probing gets the class suffix :queried-between-merges). The probes are judged too: has/feat/loc of points/find (partition family: and each) = worldkit reference over what the files merged so far keep, reported when the single-file build of that union (built on a difference only) differs as well; FindReferences is evaluated, not judged, on partial worlds; probe sets on a partial world holding an overlay file without a file it was built against are run but not judged, and classes observed after such a probe carry the suffix :after-querying-an-overlay-file-before-its-base.",
 		Assumptions: []string{
 			"what a file holds is decided by worldkit.ValidSubset per file (base points visible to overlay builds); areas need their paths in the same file, as compact.Validator implements",
 			"partition family: no ID occurs in two files. Overlap family: a feature held by several files has identical content in each, so a lookup has one right answer whichever file serves it; EachFeature emitting such a feature once per file and per-file back-references (FindReferences, relations/areas by feature, Traverse) are outside the statement and not judged there",
 			"a section where the single-file compact world itself differs from the model and the merged world equals the single-file world is counted, not reported (not a merge defect)",
 			"relations-by-feature and areas-by-point mean direct membership / a path of the area through the point, as one compact file answers (checked on the fly: disagreements of the single-file world with this model are counted)",
-			"deadlines are generous because the machine is shared; the space is sized by CPU time (quick about 6-8 CPU-minutes of which the overlapping-files family about 1; thorough about 90 CPU-minutes of which the overlapping-files family about 45)",
+			"deadlines are generous because the machine is shared; the space is sized by CPU time (quick about 6-8 CPU-minutes with the probed variant about half; thorough about 170 CPU-minutes)",
 			"merging the files of an overlay build in an order other than the build order is a supported use (ReadWorld merges a file list in the order given)",
+			"a world may be queried between two Merge calls (MergeFromFile on a serving world); what it answered before a file arrived must not change what it answers afterwards. A partial world holding an overlay file without its base is allowed to fail queries that resolve base points (not judged), but once the base is merged the statement applies again",
 		},
 		QuickDeadline: 20 * 60e9, ThoroughDeadline: 90 * 60e9, CaseTimeout: 600e9, Chunk: 4,
 		Build: func(tier string) (kit.Space, string) { return buildSpace(tier) },
